@@ -14,7 +14,7 @@ RULE = ("requirement syntax trees drawn from each ecosystem's range grammar (npm
         ".* forms without epoch/local; Maven: unions of bracketed ranges, hard and soft versions), numbers small so that bounds "
         "collide, printed with random legal spelling/white space; candidates = every bound, its predecessor/successor in each "
         "component, prerelease neighbours (npm, Cargo), and random versions (PyPI: final releases with a non-zero segment; "
-        "Maven: dotted numbers). Go answers MatchVersion for every (requirement, candidate); the extracted reference "
+        "Maven: dotted numbers); a quarter of the npm/Cargo candidates is asked again with SemVer build metadata (identifiers with - and .). Go answers MatchVersion, Constraint.Match(version string) and, for npm, resolve.MatchRequirement for every (requirement, candidate), and the three must agree; the extracted reference "
         "specification (Spec/*.v, validated against the real tool when present) answers on the syntax tree; the extracted "
         "model answers from the same parse tables. A case is non-trivial when the requirement is accepted and at least one "
         "candidate satisfies it and one does not")
@@ -442,6 +442,56 @@ def class_of(c, h, ev, impl_line):
     return None
 
 
+# requirement texts that are legal in several ecosystems with different meanings
+SHARED_TEXTS = [b"1.0.0", b"2.5.0", b"1.2", b"1", b">1.2", b">=1.0", b"<2", b"<=1.5", b"1.x", b"*", b"~1.2", b"^1", b"1.0 - 2.0",
+                b"[1.0,2.0)", b"(,1.5]", b"[1.2]", b"==1.*", b"==1.2", b"!=1.2", b"~=1.2", b"1.*", b">=1.0,<2.0", b">=1.0 <2.0",
+                b"1.2.3", b"=1.2.3", b">1", b"", b"latest"]
+SEQ_CANDS = [b"0.9.0", b"1.0.0", b"1.2.0", b"1.2.5", b"1.3.0", b"1.5.0", b"2.0.0", b"2.4.0", b"2.5.0", b"3.0.0", b"1.2", b"1.0", b"latest"]
+
+
+def sequences(ctx, tables, nd):
+    """resolve.MatchRequirement (an observation point of the property) called several times in
+    ONE process on the same texts under npm, Maven and PyPI in varying orders: every call must
+    give the answer it gives on its own (= what the semver package answers directly, = the
+    model, which has no state)"""
+    rng = ctx.rng
+    cases = []
+    for _ in range(ctx.scale(1200, 40000)):
+        texts = [rng.choice(SHARED_TEXTS) for _ in range(rng.choice([1, 2, 2, 3]))]
+        if rng.random() < 0.3:
+            texts.append(reqtext.requirement(rng, rng.choice([3, 4, 6])))
+        cands = rng.sample(SEQ_CANDS, 6) + reqtext.probes(rng, 4, texts, n_random=1, cap=4)
+        calls = []
+        for _ in range(rng.randrange(3, 9)):
+            sysi = rng.choice([4, 3, 6])
+            t = rng.choice(texts)
+            keys = set((0, x) for x in ctable.candidates(t)) | set((0, x) for x in cands)
+            if sysi == 3:
+                keys.add((0, b"0"))
+            calls.append({"sys": sysi, "head": [str(sysi), sx(t), sx(cands)], "keys": keys, "text": t, "cands": cands})
+        cases.append(calls)
+    io = ctx.impl("creqseq", ctable.impl_args_seq(cases))
+    mo = ctable.run_model_seq(ctx, tables, "creqseq", cases)
+    ctx.count("corr:creqseq", len(cases))
+    for calls, i, m in zip(cases, io, mo):
+        ctx.count("seq-calls", len(calls))
+        if i.startswith('("ok"'):
+            for k, (call, r) in enumerate(zip(calls, parse_sx(i)[1])):
+                ctx.evaluations += len(call["cands"])
+                if r[0] != r[1]:
+                    j = [x != y for x, y in zip(r[0], r[1])].index(True)
+                    ctx.violation("resolve.MatchRequirement gives for a call inside a sequence another answer than the semver "
+                                  "package gives for the same (system, requirement, version): the answer depends on earlier calls",
+                                  {"calls so far (system, requirement)": [(NAMES[c["sys"]], c["text"]) for c in calls[:k + 1]],
+                                   "version": call["cands"][j]}, r[0][j], r[1][j])
+                    break
+        if i != m and '"oom"' not in m:
+            nd += 1
+            if nd <= 40:
+                ctx.divergence("creqseq", {"calls": [(NAMES[c["sys"]], c["text"]) for c in calls], "candidates": calls[0]["cands"]}, i[:1500], m[:1500])
+    return nd
+
+
 def run(ctx):
     tables = ctable.Tables(ctx)
     cases = gen_cases(ctx)
@@ -490,6 +540,7 @@ def run(ctx):
             nd += 1
             if nd <= 40:
                 ctx.divergence("cmatch", {"system": NAMES[c["sys"]], "requirement": c["text"]}, i[:1500], m[:1500])
+    nd = sequences(ctx, tables, nd)
     spec = spec_answers(ctx, cases)
     hits = oracle(ctx, cases, impl_lines, spec)
     verdict = confirm_with_tools(ctx, cases, hits, spec)
